@@ -3,6 +3,7 @@
 //! /repo's working tree, and writes inputs + observations as Coq terms for the model side.
 mod out;
 mod rng;
+mod c07;
 mod c12;
 mod c13;
 mod c14;
@@ -41,6 +42,7 @@ fn main() {
     out::start_watchdog();
     std::panic::set_hook(Box::new(|_| {}));
     match (cmd.as_str(), a.prop.as_str()) {
+        ("gen", "C07") => c07::gen(&a),
         ("gen", "C12") => c12::gen(&a),
         ("gen", "C13") => c13::gen(&a),
         ("gen", "C14") => c14::gen(&a),
